@@ -1,4 +1,4 @@
 \* the truncation rule of single-node spot-to-spot needs 3 types (more options than MinS2S = 2)
-CONSTANTS NTypes = 3  Prices = {1, 2}  ZMods = {"dear"}  MaxCands = 1  MinS2S = 2  Focus = "price"  Weak = "s2sNoTruncate"  GenMod = 1  GenRes = 0
+CONSTANTS NTypes = 3  Prices = {1, 2}  ZMods = {"dear"}  MaxCands = 1  MinS2S = 2  Focus = "price"  UnavCTs = {}  Weak = "s2sNoTruncate"  GenMod = 1  GenRes = 0
 SPECIFICATION Spec
 INVARIANTS WeakDetect
